@@ -22,7 +22,7 @@ impl Engine for FaultsEngine {
                 let stop = Arc::new(AtomicBool::new(false));
                 let silent = Arc::new(AtomicBool::new(false));
                 let seen = Arc::new(Mutex::new(Seen::default()));
-                let cfg = AutoConfig { ch_max: 0, frame_max: 131072, heartbeat: hb, confirms: false, eof_after_close_ok: true, close_ok_delay_ms: 0, silent: silent.clone() };
+                let cfg = AutoConfig { ch_max: 0, frame_max: 131072, heartbeat: hb, confirms: false, eof_after_close_ok: true, close_ok_delay_ms: 0, step_delay_ms: 0, open_ok_delay_ms: 0, tail: Vec::new(), tail_with_open_ok: 0, silent: silent.clone() };
                 let bt = {
                     let (p, s, st) = (peer.clone(), stop.clone(), seen.clone());
                     std::thread::spawn(move || broker::auto_broker(p, cfg, s, st))
@@ -97,6 +97,11 @@ impl Engine for FaultsEngine {
                     "garbage" => peer.push(&[1, 0, 1, 0, 0, 0, 4, 0, 60, 0, 80, 0xAB]),
                     "werr" => peer.fail_writes(),
                     "srvclose" => peer.push(&broker::conn_close(320, "CONNECTION_FORCED - bye")),
+                    // any reply code: `srvclose200` (a clean-looking code), `srvclose541`, ...
+                    f if f.starts_with("srvclose") => {
+                        let code: u16 = f[8..].parse().unwrap_or(320);
+                        peer.push(&broker::conn_close(code, "Closed via management plugin"))
+                    }
                     _ => {} // silence: only heartbeats can reveal it
                 }
                 let budget = if *fault == "silence" { Duration::from_millis(u64::from(hb) * 2000 + 3000) } else { Duration::from_secs(5) };
